@@ -1454,8 +1454,11 @@ class FatDirectory(abc.MutableMapping):
             for offset, entries in self._group_entries():
                 lfn, sfn, old_entry = self._split_entries(entries)
                 if lfn.upper() == uname or sfn == uname:
+                    # The name of an existing entry (8.3 name and its case
+                    # flags) belongs to the slot, not to the new value
                     self._update_entry(offset, entry._replace(
-                        filename=old_entry.filename, ext=old_entry.ext))
+                        filename=old_entry.filename, ext=old_entry.ext,
+                        attr2=old_entry.attr2))
                     return
             # This isn't *necessarily* the actual EOF. There could be orphaned
             # or deleted entries that _group_entries isn't yielding, but that
